@@ -43,6 +43,7 @@ def dispatch (op : String) (j : Json) : R Json :=
   | "itemsEqual" => opItemsEqual j
   | "jsonRoundTrip" => opJsonRoundTrip j
   | "gobRoundTrip" => opGobRoundTrip j
+  | "docDecode" => opDocDecode j
   | "textWrite" => opTextWrite j
   | "textRead" => opTextRead j
   | _ => .error s!"unknown op {op}"
